@@ -291,7 +291,7 @@ func ruleTemplateBinding(r *Run) {
 			good := ok && len(c.Call.Args) == 1
 			if good {
 				f, base, ok2 := loadOfField(c.Call.Args[0])
-				good = ok2 && f == "ts" && base == ssa.Value(cts.Params[0]) && staticCallee(c) != nil && staticCallee(c).Name() == "AsTime"
+				good = ok2 && f == "ts" && base == ssa.Value(cts.Params[0]) && staticCallee(c) != nil && cname(staticCallee(c)) == "AsTime"
 			}
 			if !good {
 				bad = true
